@@ -9,6 +9,7 @@ import (
 	"github.com/ipfs/go-cid"
 	"github.com/ipld/go-ipld-prime"
 	cidlink "github.com/ipld/go-ipld-prime/linking/cid"
+	"github.com/ipni/go-libipni/dagsync"
 	"github.com/ipni/go-libipni/dagsync/ipnisync/head"
 	"github.com/libp2p/go-libp2p/core/peer"
 	"github.com/multiformats/go-multiaddr"
@@ -26,6 +27,7 @@ type step struct {
 	Signer  int    // key pool index for foreign / keyswap
 	Topic   string
 	Pos2    int
+	Resync  bool // the call asks for a re-sync (WithAdsResync): a rejected head must still fail it
 }
 
 type Case struct {
@@ -46,6 +48,7 @@ func genCase(t *rapid.T) Case {
 		s.SwapPos = rapid.IntRange(0, c.N-1).Draw(t, "swappos")
 		s.Signer = rapid.IntRange(1, len(gen.Keys())-1).Draw(t, "signer")
 		s.Topic = rapid.SampledFrom([]string{"", "", "/indexer/ingest/mainnet", "t"}).Draw(t, "topic")
+		s.Resync = rapid.IntRange(0, 3).Draw(t, "resync") == 0
 		c.Steps = append(c.Steps, s)
 	}
 	return c
@@ -145,7 +148,11 @@ func runCase(t *testing.T) func(Case) pbt.Result {
 				}
 				foreignLatest0 := s.Latest(foreignID)
 				latest0, ev0, req0, hk0 := s.Latest(p.ID), s.NEvents(), len(w.Requests()), s.NHooks()
-				got, err := s.S.SyncAdChain(ctx, info)
+				var so []dagsync.SyncOption
+				if st.Resync {
+					so = append(so, dagsync.WithAdsResync(true))
+				}
+				got, err := s.S.SyncAdChain(ctx, info, so...)
 				w.Settle()
 				what := fmt.Sprintf("step %d (%s, head for position %d)", si, st.Kind, st.Pos)
 				reqs := w.Requests()[req0:]
